@@ -1,3 +1,5 @@
 import MpirProofs.Lemmas.Base
 import MpirProofs.Lemmas.Kernels
 import MpirProofs.Props.C03
+import MpirProofs.Lemmas.Root
+import MpirProofs.Props.C09
